@@ -15,6 +15,8 @@ REPS = {
     "date": ("date", [("date '1999-12-31'", 1), ("date '2000-02-29'", 2), ("date '2000-02-29'", 2), ("date '2000-03-01'", 3),
                       ("date '2024-01-01'", 4)]),
     # field-wise (months, days, milliseconds): 30 days < 1 month; 12 months and 1 year are the same value
+    # bytes compare bytewise; a quote and a backslash inside a blob
+    "blob": ("blob", [("''", 1), ("'\\x00ff'", 2), ("'a''b'", 3), ("'a\\b'", 4), ("'abc'", 5), ("'abc'", 5), ("'\\xAA'", 6)]),
     # (a sub-day part of 24 hours or more stays in the milliseconds field: 30 hours < 1 day field-wise)
     "interval": ("interval", [("cast('-25 hours' as interval)", 1), ("cast('6 hours' as interval)", 2),
                               ("cast('30 hours' as interval)", 3), ("interval '1' day", 4),
